@@ -23,9 +23,9 @@ type Event struct {
 	Callee  string
 	Args    []string
 	Results []string
-	Pos    string
-	Instr  ssa.Instruction
-	Facts  []Rel // facts at the time of the call
+	Pos     string
+	Instr   ssa.Instruction
+	Facts   []Rel // facts at the time of the call
 }
 
 // Trace is one abstract path through a function (including deferred closures).
@@ -103,7 +103,7 @@ type Sim struct {
 	P       *Program
 	Effects map[string]Effect // by FuncName
 	// Record lists callees whose calls are recorded as events (by FuncName).
-	Record   map[string]bool
+	Record map[string]bool
 	// RecordStores records stores to struct fields (not locals) as events
 	// with Callee "store", Args [cell key, value].
 	RecordStores bool
